@@ -74,10 +74,13 @@ def check(ctx):
     rep = Report(
         'C19', ctx, 'other',
         'R1: the rotation matrices returned by euler_matrix (2-D, 3-D ZXZ), '
-        'axis_rotation_matrix (Rodrigues) and the CircularDetector frame '
-        'are obtained by symbolic interpretation and satisfy M^T M = I and '
-        'det M = 1 as polynomial identities modulo cos^2 + sin^2 = 1 and '
-        '|axis| = 1, i.e. for ALL angles and axes.  R2: surface_deriv is '
+        'axis_rotation_matrix (Rodrigues) are obtained by symbolic '
+        'interpretation and satisfy M^T M = I and det M = 1 as polynomial '
+        'identities modulo cos^2 + sin^2 = 1 and |axis| = 1, i.e. for ALL '
+        'angles and axes; CircularDetector is instantiated on a symbolic '
+        'axis and radius: the arc passes through the origin at parameter 0, '
+        'leaves it along radius * unit axis and keeps distance radius from '
+        'a centre on the normal.  R2: surface_deriv is '
         'the symbolic derivative of surface, component by component, for '
         'the five detector classes, with the same linear post-processing.  '
         'R3: det_point_position = det_refpoint + R * surface (contraction '
